@@ -392,3 +392,78 @@ pub fn run_merkle(ctx: &Ctx, idx: u64, only: Option<(usize, usize)>, out: &mut R
         }
     }
 }
+
+/// Arity-4 sub-arm: the library's `verify_batch_circuit_arity4` opening (leaf sponge / leaf seed row,
+/// 4-to-1 compressions) with every (row, limb) free-state fault; the cap is learnt in a first pass
+/// (withheld private cap inputs that the computed root fills) and published in the second.
+pub fn run_a4(ctx: &Ctx, idx: u64, only: Option<(usize, usize)>, out: &mut RunOut) {
+    use crate::props::c08;
+    let mut rng = Rng::new(ctx.seed, "C04-a4-free", idx);
+    foldhash::sim::set_seed(mix(mix(ctx.seed, idx), 0x6134));
+    let mut shape = c08::draw_shape(&mut rng, "U-KB4-A4", ctx.tier);
+    shape.cap_height = 0;
+    let max_h = shape.dims.iter().map(|d| d.0).max().unwrap();
+    let index = rng.usize_below(max_h);
+    let delta = 1 + rng.below(0x7f000000);
+    let cfg = ProverCfg { npo: BuilderOpts { poseidon: true, recompose: true }, poseidon_w32: true, ..ProverCfg::default() };
+    let learn = |fault| observe(|| c08::kb4a4::build_and_run_free(&shape, index, None, fault)).unwrap_or_else(Err);
+    let Ok((_, t0, honest_cap, _)) = learn(None) else {
+        out.count("a4_free_honest_learn_failed");
+        return;
+    };
+    let Some(flags) = crate::props::c04::perm_row_flags::<p3_koala_bear::KoalaBear, _>(&t0, p3_circuit::ops::Poseidon2Config::KOALA_BEAR_D4_W32.into()) else {
+        out.count("a4_free_no_trace");
+        return;
+    };
+    let prove = |cap: &[Vec<u64>], fault| -> Result<(), String> {
+        let (c, t, _, _) = observe(|| c08::kb4a4::build_and_run_free(&shape, index, Some(cap), fault)).unwrap_or_else(Err)?;
+        let (keys, info) = pipe::keygen::<crate::uni::Kb4>(&c, &cfg).map_err(|f| f.msg)?;
+        let proof = pipe::prove::<crate::uni::Kb4>(&keys, &t, &cfg, None).map_err(|f| f.msg)?;
+        pipe::verify::<crate::uni::Kb4>(&proof, &cfg, &info.commitment).map_err(|f| f.msg)
+    };
+    out.evals += 1;
+    if prove(&honest_cap, None).is_err() {
+        // honest arity-4 openings that do not prove are C08 / C10's business (known finding there)
+        out.count("a4_free_control_rejected_skipped");
+        return;
+    }
+    out.count("a4_free_control_accepted");
+    for (call, &(merkle, start)) in flags.iter().enumerate() {
+        for limb in 0..8usize {
+            if let Some((c, l)) = only {
+                if c != call || l != limb {
+                    continue;
+                }
+            } else if !rng.chance(1, ctx.tier.pick(3, 1)) {
+                continue;
+            }
+            let fault = Some((call, limb, delta));
+            let Ok((_, _, forged_cap, fired)) = learn(fault) else {
+                out.count("a4_free_fault_run_failed");
+                continue;
+            };
+            if !fired {
+                out.count("a4_free_fault_not_fired");
+                continue;
+            }
+            if forged_cap == honest_cap {
+                out.count("a4_free_fault_overwritten_by_witness");
+                continue;
+            }
+            let accepted = prove(&forged_cap, fault);
+            out.evals += 1;
+            out.steps += 1;
+            let class = format!("{}:{}", match (merkle, start) { (true, true) => "merkle_start", (true, false) => "merkle", (false, true) => "sponge_start", _ => "sponge" }, if limb < 6 { "rate" } else { "capacity" });
+            out.count(&format!("a4_free_fired_{}", class.replace(':', "_")));
+            out.distinct.insert(crate::core::prng::fnv64(format!("a4_free:{class}").as_bytes()));
+            match accepted {
+                Ok(()) => out.violate(
+                    format!("a4_free_state:{class}"),
+                    format!("arity-4 MMCS opening ({:?}, index {index}): limb {limb} of the input state of permutation row {call} ({class}), which is not read from the witness, was changed by the witness generator; the re-executed trace and the cap it yields (not the commitment of the opened values) were proven and ACCEPTED", shape.dims),
+                    json!({"sponge": true, "a4": true, "idx": idx, "universe": "U-KB4-A4", "call": call, "limb": limb}),
+                ),
+                Err(_) => out.count("a4_free_forged_rejected"),
+            }
+        }
+    }
+}
